@@ -444,8 +444,9 @@ class Table(Vector):
 				# Replace the column at validated index
 				if not isinstance(value, Vector):
 					value = Vector(value)
-				else:
-					value = value.copy()  # value semantics: never store (or rename) the caller's vector
+				# value semantics: never store (or rename) the caller's vector - and a Vector
+				# built straight from a caller's tuple still sits on that very tuple
+				value = value.copy()
 				
 				if self._underlying and len(value) != self._length:
 					raise ValueError(
@@ -466,8 +467,9 @@ class Table(Vector):
 				# Replace the column in _underlying
 				if not isinstance(value, Vector):
 					value = Vector(value)
-				else:
-					value = value.copy()  # value semantics: never store (or rename) the caller's vector
+				# value semantics: never store (or rename) the caller's vector - and a Vector
+				# built straight from a caller's tuple still sits on that very tuple
+				value = value.copy()
 				
 				# Validate length
 				if self._underlying and len(value) != self._length:
